@@ -68,7 +68,7 @@ def main():
     try:
         for c in checks:
             for s in seeds:
-                env = dict(os.environ, VERIF_SEED=str(s))
+                env = dict(os.environ, VERIF_SEED=str(s), VERIF_EVIDENCE_DIR=os.path.join(V, 'evidence_dev'))
                 t0 = time.time()
                 rc, o = sh([os.path.join(V, 'check'), c, '--tier', 'quick'], cwd=V, timeout=3000, env=env)
                 viol = [l for l in o.split('\n') if l.startswith('VIOLATION')]
